@@ -8,7 +8,12 @@ pub mod c03;
 pub mod c04;
 pub mod c05;
 pub mod c06;
+pub mod c09;
+pub mod c10;
 pub mod c11;
+pub mod c12;
+pub mod c13;
+pub mod c17;
 pub mod hist;
 
 pub fn dispatch(args: &Args) -> i32 {
@@ -19,7 +24,12 @@ pub fn dispatch(args: &Args) -> i32 {
         "C04" => c04::run(args),
         "C05" => c05::run(args),
         "C06" => c06::run(args),
+        "C09" => c09::run(args),
+        "C10" => c10::run(args),
         "C11" => c11::run(args),
+        "C12" => c12::run(args),
+        "C13" => c13::run(args),
+        "C17" => c17::run(args),
         "selfcheck" => {
             let ok = crate::vclock::self_check();
             println!("virtual clock self-check: {ok}");
